@@ -1,5 +1,5 @@
 #!/bin/bash
-# seedcheck.sh <PROP> <k> : validate one sub-agent seeded change and run every check on it.
+# seedcheck.sh <PROP> <k> [round] : validate one sub-agent seeded change and run every check on it.
 # Input:  /tmp/wt_<PROP>/seed_out/patch<k>.diff, demo<k>.py, notes<k>.md
 # Output: /verif/seeded/<PROP>-<k>/{patch.diff,demo.py,notes.md,meta.json,checks.txt}
 set -u
@@ -43,7 +43,9 @@ meta={"property":P,"variant":int(K),"patch_applies":app=="ok","tests_with_change
       "checks_reporting_violation":fired.split(),"checks_analysis_incomplete":undec.split(),
       "detected_by_own_property_check": P in fired.split(),
       "how_run":"sa/seedcheck.sh %s %s: patch applied in a scratch worktree of /repo HEAD; pytest tests; demo with/without the change; every check run with --repo <worktree> --scratch"%(P,K)}
-meta["round"]=2 if "-r2-" in TAG else 1
+import re as _re
+_m=_re.search(r"-r(\d+)-",TAG)
+meta["round"]=int(_m.group(1)) if _m else 1
 json.dump(meta,open("/verif/seeded/%s/meta.json"%TAG,"w"),indent=1)
 print(json.dumps(meta))
 PY
